@@ -455,6 +455,53 @@ def scenario(arg):
         vp.rmtree(pdir)
         rc, out, err = run_package(cargo_libcnb, root, root, "dev")
         clean = vp.snapshot(pdir)
+        # (a3) a run that fails, the cause is repaired, the next run gives the clean tree again (the failed run has no part in it): a compile
+        # error in one buildpack's source; a composite with a dependency on a buildpack that no directory of the workspace holds - while
+        # a directory next to the workspace does
+        comp = next((x for x in ws["comps"] if x["dir"] not in own_manifest), None)
+        for fk in (["dangling-with-neighbour"] if comp else []) + ["compile-error"]:
+            if fk == "compile-error":
+                victim = r.choice(ws["bps"])
+                path = os.path.join(root, victim["dir"], "src", "main.rs")
+                broken = "fn main() { this is not rust }\n"
+            else:
+                victim = comp
+                path = os.path.join(root, comp["dir"], "package.toml")
+                nid = "vp/neighbour-%d" % widx
+                doc = {"buildpack": {"uri": comp["bp_uri"]}, "dependencies": [{"uri": u} for u in comp["deps"]] + [{"uri": "libcnb:" + nid}]}
+                if comp["os"]:
+                    doc["platform"] = {"os": comp["os"]}
+                broken = tomlw.selfcheck(doc)
+                nb = os.path.join(os.path.dirname(root), "ws%d-neighbour" % widx, "bp")
+                os.makedirs(nb, exist_ok=True)
+                with open(os.path.join(nb, "buildpack.toml"), "w") as f:
+                    f.write('api = "0.10"\n\n[buildpack]\nid = "%s"\nversion = "0.1.0"\n\n[[order]]\n[[order.group]]\nid = "external/procfile"\nversion = "2.0.1"\n' % nid)
+                with open(os.path.join(nb, "package.toml"), "w") as f:
+                    f.write('[buildpack]\nuri = "."\n')
+            st0 = os.stat(path)
+            orig = open(path).read()
+            with open(path, "w") as f:
+                f.write(broken)
+            rc, out, err = run_package(cargo_libcnb, root, root, "dev")
+            with open(path, "w") as f:
+                f.write(orig)
+            os.utime(path, ns=(st0.st_atime_ns, st0.st_mtime_ns))
+            sh.evaluations += 1
+            c = dict(case, run={"cwd": ".", "profile": "dev", "history": "after-failed-run:" + fk, "victim": victim["id"]})
+            if rc == 0:
+                sh.violation("failed-run-exit-0:%s" % fk, "packaging with %s (%s) exited 0; stderr: %s" % (fk, victim["id"], err[-300:]), c)
+                return sh.dict()
+            sh.count("failed_runs_followed_by_a_repaired_one")
+            rc, out, err = run_package(cargo_libcnb, root, root, "dev")
+            sh.evaluations += 1
+            what = "re-packaging after a run that failed (%s in %s) and the repair of its cause" % (fk, victim["id"])
+            if not judge_run(ws, root, ".", "dev", pdir, rc, out, err, sh, c, what):
+                return sh.dict()
+            after = vp.snapshot(pdir)
+            if after != clean:
+                sh.violation("after-failed-run:%s" % fk, "%s: the result differs from the clean tree: %s" % (what, vp.snap_diff(clean, after, 4)), c)
+                return sh.dict()
+            sh.nontrivial.add((shape, "after-failed-run", fk, victim["kind"]))
         # (b) stale / foreign content, then package again from the root: must equal the clean tree
         # (quick: the first two and three of the other nine, rotating with the workspace index so that six workspaces see all of them twice)
         kinds = PRESEEDS if tier == "thorough" else PRESEEDS[:2] + [PRESEEDS[2 + (widx * 3 + j) % (len(PRESEEDS) - 2)] for j in range(3)]
@@ -555,6 +602,7 @@ def scenario(arg):
         vp.rmtree(root)
         vp.rmtree(root + "-artifacts")
         vp.rmtree(root + "-via-link")
+        vp.rmtree(root + "-neighbour")
     return sh.dict()
 
 
